@@ -150,7 +150,7 @@ func (s *Seq) apply(c *SeqCtx, hist []int, extra int, final bool) (inst any, app
 }
 
 func (s *Seq) opNames(hist []int) []string {
-	var r []string
+	r := []string{}
 	for _, o := range hist {
 		r = append(r, s.Ops[o].Name)
 	}
